@@ -41,7 +41,7 @@ COVER = {"fault_kinds": ["body", "callback", "effect", "pred", "bindfn", "step",
 SHARDS_QUICK = 4
 
 CLASSES = ["ValueError", "KeyError", "ZeroDivisionError", "InjectedFault", "EvaluationError", "CacheGetFailure", "KeyNotFoundError",
-           "TypeError", "RuntimeError", "AttributeError", "OSError"]
+           "TypeError", "RuntimeError", "AttributeError", "OSError", "RecursionError", "AssertionError", "LookupError", "NotImplementedError"]
 NATIVE = {"KeyNotFoundError", "SwitchError", "CaseWhenError", "ValueError", "TypeError"}
 TRIGGERS = [None, [0], [1]]
 
